@@ -13,6 +13,9 @@ CFG = dict(
                 "src(round p).  resample_pixels (10 map classes x 2 samplers, destination inside an arena) is compared with "
                 "independent sample() calls at transform(map,(x,y)); resize_view to the same size must be the identity; "
                 "matrix3x2<double> product/associativity/generators/inverse/round trip against hand formulas on seeded triples."),
+    # matrix3x2<double|float>: every public way to build or compose a matrix (default/value/copy ctor, =, *, *= with chains,
+    # aliasing A*=A, return value, rhs untouched; get_translate/get_scale/get_rotate in all overloads; transform(mat,p) and
+    # p*mat for floating and integer points; inverse) is compared member by member with a long double 3x3 model
     level_note="source contents and affine maps are seeded; sample coordinates are a fixed fine grid, not all reals; float-cast-overflow armed",
     technique="grid sweep of the real samplers against hull/formula/sentinel oracles under ASan+UBSan(+float-cast-overflow); differential resample_pixels; algebraic identities",
     rule=("one case per (pixel type, coordinate type, source shape, tight|subview) for the samplers (all grid points inside the case), "
@@ -24,7 +27,7 @@ CFG = dict(
     exhaustive_domain={"quick": "all source shapes 1..5 x 1..5; every point of the 1/8 grid over [-2,w+1]x[-2,h+1] plus +-2^-20 around integer/half-integer lines",
                        "thorough": "all source shapes 1..7 x 1..7; 1/16 grid; 2 content rounds; 100000 matrix triples"},
     types=["gray8_pixel_t", "rgb8_pixel_t", "gray16_pixel_t", "gray32f_pixel_t", "point<double>", "point<float>",
-           "nearest_neighbor_sampler", "bilinear_sampler", "matrix3x2<double>"],
+           "nearest_neighbor_sampler", "bilinear_sampler", "matrix3x2<double>", "matrix3x2<float>"],
     assumptions=["'surrounding pixels' = in-image corners of the cell [floor p, floor p + 1]; reporting 'outside' is accepted anywhere except inside [0,w-1]x[0,h-1]",
                  "tolerance: 1 unit for integral channels (the sampler truncates), 1e-5 for float32, plus 8 ulp of the coordinate type times the channel range",
                  "nearest neighbour on exact .5 ties: either neighbour (or 'outside' at the border) is accepted",
@@ -33,10 +36,11 @@ CFG = dict(
                  "any_image_view overloads of resample_pixels and resample_subimage with a rotation are not exercised"],
     tus=[tu("c17_asan%d" % k, "harness/c17_sampling.cpp", "asan", extra=FCO + ["-DC17_PART=%d" % k]) for k in range(_PARTS)],
     runs=[run("c17_asan%d" % k, shards=5 if k < 3 else 4,
-              min_cases={"quick": [100, 100, 100, 95][k], "thorough": [196, 196, 196, 247][k]}) for k in range(_PARTS)],
+              min_cases={"quick": [100, 100, 100, 115][k], "thorough": [196, 196, 196, 347][k]}) for k in range(_PARTS)],
     require_obs=["bilinear.x-pre.y-pre.true", "bilinear.x-pre.y-in.true", "bilinear.x-pre.y-last.true",
                  "bilinear.x-in.y-pre.true", "bilinear.x-in.y-in.true", "bilinear.x-in.y-last.true",
                  "bilinear.x-last.y-pre.true", "bilinear.x-last.y-in.true", "bilinear.x-last.y-last.true",
                  "bilinear.x-before.*.false", "bilinear.x-after.*.false", "bilinear.*.y-before.false", "bilinear.*.y-after.false",
-                 "resample.some-inside", "resample.all-inside", "matrix.inverse-checked"],
+                 "resample.some-inside", "resample.all-inside", "matrix.inverse-checked",
+                 "matrix-model.inverse-checked.double", "matrix-model.inverse-checked.float"],
 )
